@@ -523,6 +523,20 @@ Section SP.
         end
     end.
 
+  Lemma st_update_cons s k v : k <> [] ->
+    st_update H s k v =
+    match v with
+    | [] => TOk (inl 1)
+    | _ :: _ =>
+        let hk := nibbles_of k in
+        if negb (slice_lt (snd s) hk) then TOk (inl 2)
+        else match st_insert H (S (length hk)) (fst s) hk v with
+             | TErr e => TErr e
+             | TOk r => TOk (inr (r, hk))
+             end
+    end.
+  Proof. intros Hk. unfold st_update. destruct v; [reflexivity|]. destruct k; [congruence|reflexivity]. Qed.
+
   Lemma st_feed_sound : forall kvs s t s',
     rroot (fst s) t -> bytes_ops kvs -> st_feed s kvs = Some s' ->
     exists t' ev, update_seq resolve t kvs = TOk (t', ev) /\ rroot (fst s') t'.
@@ -531,7 +545,9 @@ Section SP.
     - simpl in Hfeed. inversion Hfeed; subst. exists t, []. auto.
     - inversion HB as [|? ? Hk HB']; subst. simpl in Hk. cbn [st_feed] in Hfeed.
       destruct (st_update H (st, last) k v) as [[c|s1]|] eqn:Eu; try discriminate.
-      unfold st_update in Eu. destruct v as [|b v]; [discriminate|]. cbn [fst snd] in Eu.
+      assert (Hkne : k <> []) by (intros ->; unfold st_update in Eu; destruct v; discriminate).
+      rewrite (st_update_cons _ _ _ Hkne) in Eu. cbv zeta in Eu.
+      destruct v as [|b v]; [discriminate|]. cbn [fst snd] in Eu.
       destruct (negb (slice_lt last (nibbles_of k))); [discriminate|].
       destruct (st_insert H (S (length (nibbles_of k))) st (nibbles_of k) (b :: v)) as [r|] eqn:Ei; [|discriminate].
       inversion Eu; subst s1. clear Eu.
@@ -878,7 +894,8 @@ Section SP.
           as (t' & ev & _ & HR' & Hin' & Hun' & _); [lia|].
         exists st', t'. split; [exact Ei|]. right. cbn [fst snd]. auto. }
     destruct Hstep as (st' & t' & Ei & Hr').
-    cbn [st_feed]. unfold st_update. cbn [fst snd]. destruct v as [|b v]; [congruence|].
+    assert (Hkne : k <> []) by (intros ->; simpl in Hlt; destruct last; discriminate).
+    cbn [st_feed]. rewrite (st_update_cons _ _ _ Hkne). cbv zeta. cbn [fst snd]. destruct v as [|b v]; [congruence|].
     rewrite Hlt. cbn [negb]. rewrite Ei.
     apply (IH (st', nibbles_of k) t' (length (nibbles_of k)) Hr' HB'); [|exact Hasc'].
     eapply Forall_impl; [|exact HF']. intros kv [? ?]. split; [assumption|]. lia.
